@@ -72,7 +72,7 @@ def prepare(data, info, time_entries=1, force_copy=False, report_conversion=Fals
         if info.is_masked and not np.ma.isarray(data.magnitude):
             data = UNITS.Quantity(
                 np.ma.array(
-                    data=data.magnitude,
+                    data=_shape_flat_data(data.magnitude, info),
                     mask=info.mask,
                     shrink=False,
                     fill_value=info.fill_value,
@@ -88,7 +88,7 @@ def prepare(data, info, time_entries=1, force_copy=False, report_conversion=Fals
         if info.is_masked and not np.ma.isarray(data):
             data = UNITS.Quantity(
                 np.ma.array(
-                    data=data,
+                    data=_shape_flat_data(data, info),
                     mask=info.mask,
                     shrink=False,
                     fill_value=info.fill_value,
@@ -110,6 +110,21 @@ def prepare(data, info, time_entries=1, force_copy=False, report_conversion=Fals
 
     if report_conversion:
         return data, units_converted
+    return data
+
+
+def _shape_flat_data(data, info):
+    """Bring flat data into the grid's data shape before a mask is attached.
+
+    Flat data is given in the grid's order, the mask in the grid's data shape.
+    """
+    if (
+        isinstance(info.grid, Grid)
+        and len(info.grid.data_shape) > 1
+        and np.ndim(data) == 1
+        and np.size(data) == info.grid.data_size
+    ):
+        return np.reshape(data, info.grid.data_shape, order=info.grid.order)
     return data
 
 
